@@ -225,6 +225,8 @@ class API:
                                 config_dict = yaml.safe_load(file)
                             except yaml.MarkedYAMLError as e:
                                 raise ConfigurationException.from_yaml_error(e)
+                            except yaml.YAMLError as e:
+                                raise ConfigurationException(str(e), position=Position(file=path))
                         case '.json':
                             try:
                                 config_dict = json.load(file)
@@ -254,6 +256,8 @@ class API:
             )
         except pydantic.ValidationError as e:
             raise ConfigurationException.from_pydantic_error(e)
+        except UnicodeDecodeError as e:
+            raise ConfigurationException(str(e), position=Position(file=path))
         except FileNotFoundError:
             raise FileNotFoundException(path)
 
